@@ -22,7 +22,7 @@ pub fn units(id: &str, tier: &str) -> Option<Vec<Unit>> {
         "C04" => { let mut v = seqprops::c04(thorough); v.extend(seqprops::core_units(thorough)); v }
         "C05" => { let mut v = seqprops::c05(thorough); v.extend(seqprops::core_units(thorough)); v }
         "C06" => { let mut v = c06::units(thorough); v.extend(seqprops::stream_units(thorough)); v.push(c15::limits_unit(thorough)); v }
-        "C07" => c07::units(thorough),
+        "C07" => { let mut v = c07::units(thorough); v.push(c15::blocking_unit(thorough)); v }
         "C08" => { let mut v = seqprops::c08(thorough); v.extend(schedprops::c08_sched(thorough)); v }
         "C09" => c09::units(thorough),
         "C10" => { let mut v = seqprops::c10(thorough); v.extend(schedprops::c10_sched(thorough)); v }
